@@ -82,6 +82,9 @@ func main() {
 		_ = enc.Encode(map[string]any{"begin": k})
 		r := vh.NewRand(*seed).Fork(fmt.Sprintf("race-round-%d", k))
 		u, why := cdesc.GenUniverse(r, fmt.Sprintf("r%dx%d", *seed, k))
+		if k%3 == 1 {
+			u, why = cdesc.GenRich(r, fmt.Sprintf("r%dx%d", *seed, k))
+		}
 		ms := cdesc.MsgNodes(u)
 		if len(ms) == 0 {
 			continue
